@@ -150,11 +150,17 @@ func (p *Program) assignLocs(con *Contract, sig *types.Signature) (locs []assign
 				h, d := p.mapArrays(mt)
 				name := parts[0]
 				ks, vs := p.sortOf(mt.Key()), p.sortOf(mt.Elem())
+				mtag := IntLit(int64(p.tagOf(mt)))
 				for _, ar := range []struct {
 					n string
 					s Sort
 				}{{h, ArrSort(SInt, ArrSort(ks, vs))}, {d, ArrSort(SInt, ArrSort(ks, SBool))}} {
-					locs = append(locs, assignLoc{array: ar.n, sort: ar.s, src: a, ref: func(tr *Translator) T { return App(SInt, "pl_Int", tr.lookupIdent(name).t) }})
+					// only when the value is such a map: the payload of any other value is not a map reference
+					isMap := func(tr *Translator) T { return Eq(App(SInt, "tag", tr.lookupIdent(name).t), mtag) }
+					ref := func(tr *Translator) T { return App(SInt, "pl_Int", tr.lookupIdent(name).t) }
+					locs = append(locs, assignLoc{array: ar.n, sort: ar.s, src: a,
+						pred:   func(tr *Translator, r T) T { return And(isMap(tr), Eq(r, ref(tr))) },
+						forall: func(tr *Translator, cond func(T) T) T { return Implies(isMap(tr), cond(ref(tr))) }})
 				}
 			default:
 				return nil, false, fmt.Errorf("assigns: parameter %q is not a reference", parts[0])
